@@ -108,6 +108,9 @@ def cases(tier, mode='func'):
     """mode: func (C05) | safety (C11) | copy (C12) | lock (C14) | allocfail (C15)"""
     q = tier == 'quick'
     if mode == 'func':
+        if q:   # put/putstr/putint with range 3 and 3 keys cost ~20 s each: quick keeps 4 of those 10 layouts, thorough has all
+            lay = layouts([1, 2, 3], 3)
+            return ht_cases(tier, lay=lay, lay_put=[l for l in lay if not (l[0] == 3 and sum(l[1]) == 3)] + L('r3.c111', 'r3.c012', 'r3.c300', 'r3.c021'))
         return ht_cases(tier)
     if mode == 'safety':
         if q:
@@ -131,7 +134,7 @@ def cases(tier, mode='func'):
 def info(tier):
     q = tier == 'quick'
     return {'container': 'hash table (qhashtbl.c)',
-            'bounds': 'range %s, %s keys in every distribution over the slots (chain lengths are per-query constants, all compositions enumerated; the cross-cutting modes use a representative subset of these layouts: '
+            'bounds': 'range %s, %s keys in every distribution over the slots (chain lengths are per-query constants, all compositions enumerated; quick: put/putstr/putint with range 3 and 3 keys on 4 of the 10 distributions; the cross-cutting modes use a representative subset of these layouts: '
                       'empty table, one node, chains of 2-3 with head/middle/tail, empty slots before/between/after occupied ones); keys: NUL-terminated, length 1..2 (symbolic) over a symbolic 5-letter alphabet '
                       '(bytes m^0..m^4, m symbolic >= 8), stored key i starts with letter i, operation/probe keys unconstrained; values 1..3 bytes of symbolic size (putint: |num| < 10^4, i.e. 2..6 bytes); '
                       'stub hash values: any 32-bit word, except put/putstr/putint/clear-then-put with range 3 where they are below 2^10; constructor ranges %s; allocation-failure position is a per-query constant'
